@@ -537,3 +537,30 @@ def real_scale_cases(draw, types=('upload', 'download', 'copy')):
                                     'fault': 'retryable:1'}]},
             'faults': [], 'end': {'how': 'shutdown', 'wait_results': True},
             'sched': draw(schedules(30))}
+
+
+@st.composite
+def huge_copy_cases(draw):
+    """Real-scale, data-less multipart copies up to 5 TiB (planning only)."""
+    GiB = 1024 ** 3
+    TiB = 1024 ** 4
+    chunk = draw(st.sampled_from([5 * MiB, 8 * MiB, 8 * MiB + 1, 64 * MiB,
+                                  5 * GiB, 6 * GiB]))
+    size = draw(st.sampled_from([
+        10000 * 8 * MiB - 1, 10000 * 8 * MiB, 10000 * 8 * MiB + 1,
+        10000 * 16 * MiB + 9999, 5 * TiB - 1, 5 * TiB, 1 * TiB + 12345,
+        3 * 5 * GiB + 1, 10001 * 5 * MiB]))
+    cfg = {'multipart_threshold': 8 * MiB, 'multipart_chunksize': chunk,
+           'io_chunksize': 256 * 1024, 'max_request_concurrency': 2,
+           'max_submission_concurrency': 1, 'max_request_queue_size': 1000,
+           'max_submission_queue_size': 10, 'max_io_queue_size': 10,
+           'num_download_attempts': 1, 'max_in_memory_upload_chunks': 2,
+           'max_in_memory_download_chunks': 2}
+    return {'cfg': cfg, 'adj': None, 'exec': 'thr', 'rcc': 'when_required',
+            'transfers': [{'type': 'copy', 'size': size, 'virtual': True,
+                           'version': False, 'src_client': False,
+                           'extra': {}, 'subs': []}],
+            'scripts': {'body': [], 'stream': []}, 'faults': [],
+            'max_steps': 3000000, 'kind': 'e2e',
+            'end': {'how': 'shutdown', 'wait_results': True},
+            'sched': {'mode': 'walk', 'choices': []}}
